@@ -255,8 +255,9 @@ def canon_impl(res: Dict[str, Any]) -> Dict[str, Any]:
     return {"log": log, "digests": res["digests"], "nobj": res["nobj"]}
 
 
-def model_line(ops, fixed=True) -> Dict[str, Any]:
-    return {"layer": "sysev", "imm": IMM, "nul": NUL, "fix12": fixed, "fix13": fixed, "ops": ops}
+def model_line(ops, fixed=True, imm=None, nul=None) -> Dict[str, Any]:
+    return {"layer": "sysev", "imm": IMM if imm is None else imm, "nul": NUL if nul is None else nul,
+            "fix12": fixed, "fix13": fixed, "ops": ops}
 
 
 def first_difference(model, impl):
